@@ -6,6 +6,10 @@ def S(name, build, tiers=("quick", "thorough"), args=(), **kw):
     return d
 
 STAGES = {
+    "C03": [S("native", "native", timeout=2400)],
+    "C08": [S("native", "native")],
+    "C17": [S("native", "native")],
+    "C18": [S("native", "native")],
     "C10": [S("native", "native")],
     "C11": [S("native", "native")],
     "C19": [S("native", "native")],
@@ -30,6 +34,10 @@ STAGES = {
 }
 
 LEVELS = {
+    "C03": "fault_enumeration",
+    "C08": "exploration",
+    "C17": "exploration",
+    "C18": "exploration",
     "C10": "fault_enumeration",
     "C11": "fault_enumeration",
     "C19": "exploration",
@@ -48,6 +56,22 @@ LEVELS = {
 }
 
 ASSUMPTIONS = {
+    "C03": [
+        "signals carry unique ids (rt_tgsigqueueinfo + si_value); standard signals are sent at most once per (thread, signal number) at a time so coalescing cannot hide a loss",
+        "job-control stop signals (SIGTSTP/SIGTTIN/SIGTTOU) are excluded: the kernel discards pending stop signals whenever SIGCONT is generated",
+        "interleavings are placed at hook points and by a concurrent sender; kernel-internal orderings (e.g. a realtime signal dequeued between ptrace_attach's flag and its SIGSTOP) are not forced",
+        "progress is decided on heartbeat counters / TracerPid / State with a 20 s watchdog whose firing is inconclusive unless a thread is in a stop state",
+    ],
+    "C08": [
+        "groups come from the checker's own /proc/<pid>/maps parse; ids and SONAMEs from harness/src/elf.rs applied to the bytes the harness wrote, to system library files and to the vDSO read from /proc/<pid>/mem",
+        "a build id reachable only through the section table is expected only when the mapped file exists on disk and is itself the ELF image",
+    ],
+    "C17": [
+        "PROT_NONE pages are readable through /proc/<pid>/mem and PTRACE_PEEKDATA (FOLL_FORCE): returning their true content is not fabrication; only unmapped addresses are unreadable to every strategy",
+    ],
+    "C18": [
+        "the target is quiescent between the dump and the checker's own /proc reads; volatile status/cpuinfo lines (State, TracerPid, context switches, MHz, bogomips, memory counters) are excluded",
+    ],
     "C10": [
         "crash points are the boundaries between the writer's own write/seek calls on a destination that accepts every write completely (a short-writing destination would add boundaries the writer does not control)",
         "the strict decoder of C01 is the judge of 'readable truncated minidump'",
@@ -111,6 +135,26 @@ ASSUMPTIONS = {
 }
 
 META = {
+    "C03": {
+        "technique": "post-state monitor (TracerPid/State/heartbeats) + offline signal-conservation checker over uniquely numbered signals, under exhaustive destination-fault enumeration (error and panic/unwind at every call index) and hook-placed signal schedules incl. the re-injection path",
+        "level_text": "Every destination call index of the fault-free dump gets an injected error and an injected panic (unwinding), under several option sets; two later-stage hard errors; uniquely numbered standard (<19, >19) and realtime signals are placed at 11 hook points x group-stop succeeded/failed and by a concurrent sender. After every dump all threads must be untraced immediately, none may stay in t/T, heartbeats must advance, and multiset(sent)=multiset(logged) per thread. The run must observe re-injections (>0) or it fails as a harness error.",
+        "level_note": "Fault enumeration is complete per explored configuration; schedules are sampled. Targets killed mid-dump are exercised under C02.",
+    },
+    "C08": {
+        "technique": "set-equality oracle between the module list and file-backed groups derived from the checker's own maps parse + independent ELF reader; caller-mapping containment cases; memory-vs-file differential for C14",
+        "level_text": "Targets map up to 12 synthetic ELF images like a loader (ids in PT_NOTE / sections only / absent / all-zero, SONAME or not, deleted, archive offset, awkward names, same file twice) plus non-ELF files; 0..3 caller mappings containing / overlapping / disjoint. Every qualifying group must be listed exactly once with merged extent, exact id record and expected name; the entry-point module first; no overlaps; caller mappings verbatim and suppressing contained groups; nothing else listed. System libraries and the vDSO are judged the same way.",
+        "level_note": "Version fields derived from .so.N names are not part of the statement and not judged.",
+    },
+    "C17": {
+        "technique": "pattern oracle on each forced MemReader strategy with an exhaustive small grid at both mapping boundaries and sampled large ranges, on a target suspended through the real suspend_threads",
+        "level_text": "For process_vm_readv, /proc/<pid>/mem and PTRACE_PEEKDATA separately: every (distance 0..16, length 1..40) at the mapping end and start (exhaustive), 4095..65536-byte ranges at all alignments mod 8, ranges crossing into unmapped memory by 1..4096 bytes or starting in the fence; read() and read_to_vec(). Readable ranges must come back exact; partly unreadable ranges as error or true strict prefix.",
+        "level_note": "One pattern mapping per target, fence side alternates.",
+    },
+    "C18": {
+        "technique": "byte-equality / field-equality oracles between each OS-information stream and the checker's own /proc reads, readlink+stat, cpuinfo parse, uname, and the target's own r_debug walk or a harness-built fake linker chain (auxv precedence cases)",
+        "level_text": "Targets with hostile argv/environment (empty, all byte values, 100 KiB), up to 200 descriptors of all kinds, mappings of every permission combination incl. a shared file, real and fake linker chains; blamed thread main or worker; five direct-auxv variants. Raw streams must be byte copies; memory-info entries must match maps lines (range, protection table, private/shared); handles must equal readlink+st_mode per descriptor; system info must match cpuinfo/uname; the linker stream must equal the chain the effective auxv leads to.",
+        "level_note": "CPU feature words beyond vendor/family/model/stepping are not in the statement.",
+    },
     "C10": {
         "technique": "crash-point and I/O-fault enumeration on a recording destination: every post-call snapshot and every injected-error end state of a real dump is decoded as a truncated minidump by the strict decoder",
         "level_text": "For each explored dump the destination is snapshotted after EVERY write/seek call (all ~60-90 boundaries) and each snapshot must decode with header and full directory present and every published directory entry's stream and referenced blobs wholly present; then an I/O error (plain or after a partial store) is injected at EVERY call index and the aborted destination gets the same check. Exhaustive per dump; dumps (3 target shapes x option combinations incl. failing dso-debug) are sampled.",
